@@ -92,7 +92,7 @@ func elemSortOfArr(arrSort string) string {
 func (ex *Exec) callSiteClauses(name string, k int, when string, args []TV, rets []TV, pos token.Pos) {
 	vc := ex.vc
 	for _, c := range vc.fc.Clauses {
-		if (c.Kind != "ghost" && c.Kind != "assert") || c.When != when || c.Callee != name || c.CallK != k {
+		if (c.Kind != "ghost" && c.Kind != "assert") || c.When != when || c.Callee != name || (c.CallK != k && c.CallK != -1) {
 			continue
 		}
 		env := ex.specEnv(ex.cur.heap)
@@ -408,6 +408,25 @@ func (ex *Exec) applyContract(v ssa.Value, fc *FuncContract, cname string, names
 		ex.havocCallee("noframe:"+cname, vc.ctx.funcs[cname])
 		post = ex.cur.heap
 	}
+	for _, c := range fc.clauses("preserves") {
+		arr, refs, err := vc.preservesLoc(envPre, c.Expr)
+		if err != nil {
+			vc.ctx.contractError(fc, c, err)
+			continue
+		}
+		a0, a1 := pre.get(arr), post.get(arr)
+		if a0 == a1 {
+			continue
+		}
+		q := fmt.Sprintf("|r?p%d|", vc.nfresh)
+		vc.nfresh++
+		var ex2 []string
+		for _, r := range refs {
+			ex2 = append(ex2, fmt.Sprintf("(not (= %s %s))", q, r))
+		}
+		vc.assume(fmt.Sprintf("(forall ((%s Int)) (! (=> (and (>= %s 0) (< %s %s) %s) (= (select %s %s) (select %s %s))) :pattern ((select %s %s))))",
+			q, q, q, pre.alloc, strings.Join(ex2, " "), a1, q, a0, q, a1, q))
+	}
 	if post.alloc == pre.alloc {
 		a := vc.fresh("alloc", "Int")
 		vc.assume(fmt.Sprintf("(>= %s %s)", a, pre.alloc))
@@ -718,4 +737,38 @@ func (ex *Exec) isTypeInvOwner(of string) bool {
 		}
 	}
 	return false
+}
+
+// preservesLoc parses "Type.field [except e1, e2]".
+func (vc *VC) preservesLoc(env *SpecEnv, expr string) (arr string, refs []string, err error) {
+	parts := strings.SplitN(expr, " except ", 2)
+	tf := strings.SplitN(strings.TrimSpace(parts[0]), ".", 2)
+	if len(tf) != 2 {
+		return "", nil, fmt.Errorf("preserves Type.field [except ...]")
+	}
+	o := vc.ctx.tpkg.Scope().Lookup(tf[0])
+	if o == nil {
+		return "", nil, fmt.Errorf("preserves: unknown type %s", tf[0])
+	}
+	st, ok := o.Type().Underlying().(*types.Struct)
+	if !ok {
+		return "", nil, fmt.Errorf("preserves: %s is not a struct", tf[0])
+	}
+	fi := findField(st, tf[1])
+	if fi < 0 {
+		return "", nil, fmt.Errorf("preserves: no field %s", tf[1])
+	}
+	arr = vc.fieldArr(vc.structName(o.Type(), st), st.Field(fi))
+	if len(parts) == 2 {
+		old := *env
+		old.inOld = true
+		for _, e := range splitTop(parts[1], ',') {
+			tv, e2 := old.Any(strings.TrimSpace(e))
+			if e2 != nil {
+				return "", nil, e2
+			}
+			refs = append(refs, tv.T)
+		}
+	}
+	return arr, refs, nil
 }
